@@ -502,12 +502,12 @@ Proof. exact tie_lines_forward_finish. Qed.
 
 (** C05 over the translated one-line-at-a-time reader, the whole of it: for an input whose lines are valid
     UTF-8 (with and without their terminator alike) and an ascending request that resolves on it, it prints
-    the selection of the statement *)
+    the selection of the statement (the terminator is LF or NUL: below 128) *)
 Theorem tie_C05_forward_reader : forall (o : opt) (input : bytes) (x : bytes),
   records (o_eol o) input <> [] -> items (o_bounds o) <> [] ->
   fwd_ok 1 (Z.of_nat (length (records (o_eol o) input))) (items (o_bounds o)) -> last_marked (items (o_bounds o)) ->
   Forall (fun l => utf8_valid l = true) (records (o_eol o) input) ->
-  (forall l, In l (records (o_eol o) input) -> utf8_valid (l ++ [o_eol o]) = utf8_valid l) ->
+  (o_eol o < 128)%N ->
   Z.of_nat (length (items (o_bounds o))) + 1 <= usize_max -> Z.of_nat (length input) + 1 <= RsPrelude.i32_max ->
   spec_items (records (o_eol o) input) (o_fallback o) (o_join o) [o_eol o] (items (o_bounds o)) = Some x ->
   gen_lines_forward input o = Ret (Some tt, x ++ [o_eol o]).
@@ -526,7 +526,7 @@ Theorem tie_C05_whichever_algorithm : forall (o : opt) (input : bytes) (x : byte
   Forall item_nz (items (o_bounds o)) -> items (o_bounds o) <> [] ->
   fwd_ok 1 (Z.of_nat (length (records (o_eol o) input))) (items (o_bounds o)) -> last_marked (items (o_bounds o)) ->
   Forall (fun l => utf8_valid l = true) (records (o_eol o) input) -> records (o_eol o) input <> [] ->
-  (forall l, In l (records (o_eol o) input) -> utf8_valid (l ++ [o_eol o]) = utf8_valid l) ->
+  (o_eol o < 128)%N ->
   utf8_valid input = true -> input <> [] -> strip_one_suffix (o_eol o) input <> [] ->
   Z.of_nat (length (items (o_bounds o))) + 1 <= usize_max -> Z.of_nat (length input) + 2 <= RsPrelude.i32_max ->
   spec_items (records (o_eol o) input) (o_fallback o) (o_join o) [o_eol o] (items (o_bounds o)) = Some x ->
